@@ -47,7 +47,7 @@ def stats_chain(r, coin, nb, mode):
 
 def explore(ck):
     r = ck.rng; quick = ck.tier == 'quick'
-    ck.rule = ('simplestats on chains built for: ties of both maxima inside one block and across blocks, non-monotonic timestamps incl. 0 and 2^32-1 (clamped gaps, sums beyond 2^32), all-zero values, every '
+    ck.rule = ('simplestats on chains built for: ties of both maxima inside one block and across blocks, non-monotonic timestamps incl. 0 and 2^32-1 (clamped gaps, sums beyond 2^32), all-zero values, deterministic gap and stored-size sums of 2..3 times 2^32, a script type holding 1 of 26 001 outputs (shares that round to 0.00 % and 100.00 %), every '
                'script type incl. first occurrences (and all of them in one range: the longest report), huge values, coinbase look-alikes, a largest transaction with over-long CompactSize encodings, ranges, heights at, next to and between the halving boundaries 210000*k and 13 440 000 (index windows starting there); every figure of the report is parsed and compared with '
                'the model (integers exactly, means as exact rationals within the printed rounding); get_mean and get_base_reward additionally through their hooks (sums around 2^32 and 2^53, every halving '
                'index 0..70), debug and release profile. Non-trivial: >= 2 blocks and >= 2 script types and (a tie for a maximum or a sum >= 2^32); distinct by case.')
@@ -69,6 +69,23 @@ def explore(ck):
             txs.append(Tx([(gen.rb(r, 32), 0, b'', 0)], [(1000 + i, gen.script_zoo(r, kd)[1]) for i, kd in enumerate(kinds_all[h::4] + kinds_all[:2])]))
             b = Block(prev, txs, time=1300000000 + 600 * h); blocks.append(b); prev = b.hash
         c = Case('alltypes_' + coin, coin).simple_layout(blocks); c.meta.update(mode='types'); cases.append(c)
+    # sums of the per-block samples beyond 2^32 (the means are defined over the exact sums): timestamp gaps of nearly 2^32 seconds several times in a range, and stored block sizes near 2^32
+    for k, coin in enumerate(('bitcoin', 'dogecoin') if quick else gen.ALL_COINS):
+        times = [1, 2**32 - 1, 5, 2**32 - 1, 1, 2**31, 2**32 - 1, 2**32 - 1][:5 + k % 4]
+        blocks = []; prev = b'\x00' * 32
+        for h, t_ in enumerate(times):
+            b = Block(prev, [coinbase_tx(h, [(50 * 10**8, gen.script_zoo(r, 'p2pkh')[1]), (h, gen.script_zoo(r, 'p2sh')[1])], extra=gen.rb(r, 2))], time=t_); blocks.append(b); prev = b.hash
+        c = Case('gaps%d' % k, coin).simple_layout(blocks); c.meta.update(mode='bigsum'); cases.append(c)
+        c = Case('sizes%d' % k, coin); c.meta.update(mode='bigsum')
+        for h, b in enumerate(blocks[:4]):
+            off = c.put_block(0, b.raw, size=[2**32 - 1, 2**31 + 5, 2**32 - 2, 3][h]); c.add_record(b, h, 0, off)      # the stored length prefix is what the block size figure reports
+        cases.append(c)
+    # a share below 0.005 % and one above 99.995 %: more than 20 000 outputs of one type and a single output of another (the share is count/total*100 rounded to two decimals, whatever it rounds to)
+    for k, (coin, nmany) in enumerate([('litecoin', 26000)] if quick else [('litecoin', 26000), ('bitcoin', 20001), ('namecoin', 40000)]):
+        prev = b'\x00' * 32; blocks = []
+        b = Block(prev, [coinbase_tx(0, [(50 * 10**8, gen.script_zoo(r, 'p2pkh')[1])]), Tx([(gen.rb(r, 32), 0, b'', 0)], [(1, b'\x51')] * nmany)], time=1300000000); blocks.append(b)
+        b = Block(b.hash, [coinbase_tx(1, [(50 * 10**8, b'\x51'), (0, b'\x51')])], time=1300000600); blocks.append(b)
+        c = Case('skew%d' % k, coin).simple_layout(blocks); c.meta.update(mode='skew'); cases.append(c)
     # height windows around halvings and the 64th halving
     for kw, H in enumerate([209999, 210001, 420000, 630005, 13439999, 13440000] if quick else [1, 210001, 250000, 630005, 6930001, 209999, 210000, 419999, 420000, 6929999, 6930000, 13229999, 13439999, 13440000, 13440001, 14000000]):
         # the schedule of the property (50 coins, halved every 210 000 heights) applies to every coin: two coins per window, all eight coins at heights >= 210 000
@@ -79,7 +96,7 @@ def explore(ck):
         st = m['stat']
         if not st: return None
         big = int(st['meansize'][0]) >= 2**32 or int(st['meangap'][0]) >= 2**32
-        return c.id if (int(st['blocks'][0]) >= 2 and len(m['stattype']) >= 2 and (c.meta['mode'] in ('ties', 'halving') or big)) else None
+        return c.id if (int(st['blocks'][0]) >= 2 and len(m['stattype']) >= 2 and (c.meta['mode'] in ('ties', 'halving', 'skew') or big)) else None
     models, results = core.compare_cases(ck, cases, lambda c: ['stats'], nontrivial=nontrivial,
                                          sample=lambda c, m: dict(case=c.id, coin=c.coin, mode=c.meta['mode'], start=c.start, end=c.end, model={k: v for k, v in m['stat'].items()}, types=m['stattype'][:4]))
     # release profile on a subset (wrap-around instead of overflow panics)
